@@ -371,7 +371,9 @@ fn linear_all(ctx: &Ctx, sink: &mut Sink) {
       let hs = 3600 * rng.range(0, 23);
       let (ga, gb) = (3600 * rng.range(-72, 72), 3600 * rng.range(-72, 72));
       lin(sink, 120, time_of(j, hs), ga, gb, |x, n| x.next(n as isize), |x| { let (a, b) = inst(x); vec![a, b] });
-      lin(sink, 121, time_of(jl, hs).and_then(|t| catch_iso(|| t.get_sixty_cycle_hour())), ga, gb, |x: &SixtyCycleHour, n| x.next(n as isize), |x| { let (a, b) = inst(&x.get_solar_time()); vec![a, b] });
+      let sch2 = |x: &SixtyCycleHour| { let (a, b) = inst(&x.get_solar_time()); vec![a, b, x.get_year().get_index() as i64, x.get_month().get_index() as i64, x.get_day().get_index() as i64, x.get_sixty_cycle().get_index() as i64] };
+      linc(sink, 121, time_of(jl, hs).and_then(|t| catch_iso(|| t.get_sixty_cycle_hour())), ga, gb, |x: &SixtyCycleHour, n| x.next(n as isize), sch2,
+        |x| SixtyCycleHour::from_solar_time(x.get_solar_time()));
     }
     let (ta, tb) = secs(&mut rng, jl, LLO + 2, LHI - 2);
     let sch = |x: &SixtyCycleHour| { let (a, b) = inst(&x.get_solar_time()); vec![a, b, x.get_year().get_index() as i64, x.get_month().get_index() as i64, x.get_day().get_index() as i64, x.get_sixty_cycle().get_index() as i64] };
